@@ -409,6 +409,11 @@ def check_gcs(case, ctx):
             hm = must(CFHeadersMessage, "gcs/header", 0, bytes(case["stop"]), bytes(case["prev"]), [fh])
             require(hm.last_header == ref.filter_header(sha256d(want), bytes(case["prev"])),
                     "gcs/filter_header")
+            # the object is unchanged by having been serialised and hashed
+            require(must(obj.serialize, "gcs/serialize_again_" + name) == want,
+                    f"gcs/second_serialisation_differs:{cls}", f"{info} route={name}")
+            require(all(_Raw(e) in obj for e in elements[:50]), f"gcs/false_negative_after_serialise:{cls}",
+                    f"{info} route={name}")
 
 
 # ------------------------------------------------------------------ filter header chains
@@ -526,6 +531,14 @@ def check_bloom(case, ctx):
     for it in items[:3]:
         bf.add(it)
     require(bf.filter_bytes() == want, "bloom/readd_changes_bits")
+    # a second filter made afterwards starts empty (nothing is shared between filter objects)
+    bf2 = must(BloomFilter, "bloom/constructor", size, nfuncs, tweak)
+    require(bf2.filter_bytes() == bytes(size), "bloom/new_filter_is_not_empty", info)
+    if items:
+        bf2.add(items[-1])
+        require(bf2.filter_bytes() == ref.bloom_bytes(size, ref.bloom_positions(items[-1], size, nfuncs, tweak)),
+                "bloom/second_filter_bits_differ", info)
+        require(bf.filter_bytes() == want, "bloom/first_filter_changed_by_second", info)
 
 
 LENS = [f"len={n}" for n in range(MAXLEN + 1)]
